@@ -55,8 +55,9 @@ def run_inprocess(case, tmp):
         argv.append("--pretty")
     if o.get("query_file"):
         qp = os.path.join(tmp, "query.txt")
-        with open(qp, "w", encoding="utf-8", newline="") as f:
-            f.write(case.get("qpre", "") + case["q"] + case.get("qpost", ""))
+        with open(qp, "wb") as f:
+            f.write(bytes.fromhex(case["q_hex"]) if "q_hex" in case else
+                    (case.get("qpre", "") + case["q"] + case.get("qpost", "")).encode("utf-8"))
         argv += ["-r", qp]
     else:
         argv.append("--query=" + case["q"])
@@ -127,8 +128,9 @@ def run_subprocess(case, tmp):
         argv.append("--pretty")
     if o.get("query_file"):
         qp = os.path.join(tmp, "squery.txt")
-        with open(qp, "w", encoding="utf-8", newline="") as f:
-            f.write(case.get("qpre", "") + case["q"] + case.get("qpost", ""))
+        with open(qp, "wb") as f:
+            f.write(bytes.fromhex(case["q_hex"]) if "q_hex" in case else
+                    (case.get("qpre", "") + case["q"] + case.get("qpost", "")).encode("utf-8"))
         argv += ["-r", qp]
     else:
         argv.append("--query=" + case["q"])
@@ -180,6 +182,8 @@ def expected_of(case):
     import jsonpath_rfc9535 as jp
 
     q = case["q"]   # a query file may add JSONPath blank space around it (qpre/qpost); nothing else is insignificant
+    if "q_hex" in case:
+        return "error", "query:file-not-decodable"   # bytes that are not text at all are not a query
     try:
         cq = jp.JSONPathEnvironment().compile(q)
     except RecursionError:
@@ -330,16 +334,21 @@ def run_shard(spec, shard):
             case.update(q=r.choice(DEEP_QUERIES + ["$[0]", "$"]), deep=r.choice([50, 99, 100, 101, 150, 600, 1250, 1250, 3000]))
         elif k < 0.93:
             case.update(q=r.choice(["$", "$.a", "$[?@.a]"]), doc_text=r.choice(["", "{", "[1,", "{\"a\":}", "nul", "[1] x", "'a'", "{\"a\": NaN}x"]))
-        else:
+        elif k < 0.97:
             case.update(q=r.choice(["$", "$..a"]), doc_hex=r.choice(["ff", "5b22c3285d", "c0af", "80", "e28228", "f0288cbc"]))
-        if opts["query_file"] and case["q"] != case["q"].strip(" \t\r\n"):
+        else:
+            # a query file holding bytes that are not UTF-8 text
+            hx = r.choice(["245b22ff225d", "24ff", "ff", "242e61c0af", "245b27e2822827 5d".replace(" ", ""), "f0288cbc", "24" + "80"])
+            case.update(q="<bytes " + hx + ">", q_hex=hx, doc={"a": 1})
+            opts["query_file"] = True
+        if "q_hex" not in case and opts["query_file"] and case["q"] != case["q"].strip(" \t\r\n"):
             opts["query_file"] = False
         if opts["query_file"]:
             case["qpre"] = r.choice(["", "", " ", "\n", "\t"])
             case["qpost"] = r.choice(["", "\n", "\r\n", " \n", "\n\n"])
         if opts["query_file"] and any(ord(c) > 0x7F for c in case["q"]) and False:
             opts["query_file"] = False
-        if r.random() < 0.3 and all(ord(c) < 0x80 for c in case["q"]):
+        if r.random() < 0.3 and all(ord(c) < 0x80 for c in case["q"]) and "q_hex" not in case:
             opts["posix_locale"] = True     # only meaningful for subprocess runs; the query itself stays ASCII
         with default_recursion_limit():
             exp, detail = expected_of(case)
